@@ -140,9 +140,26 @@ def seeded_for(prop):
     return out
 
 
-def mutants_for(prop, with_seeded=False):
+def benign_for(prop):
+    """the independently written behaviour-preserving patches (/verif/benign), as `benign` variants for this property; the ones recorded by
+    `sa/benign.py detect` as raising an alarm under this property (measured limits, DESIGN.md 7b) are left out: they are not regressions"""
+    out = []
+    bd = os.path.join(VERIF, "benign")
+    if os.path.isdir(bd):
+        for d in sorted(os.listdir(bd)):
+            mp = os.path.join(bd, d, "meta.json")
+            pp = os.path.join(bd, d, "patch.diff")
+            if not (os.path.exists(mp) and os.path.exists(pp)):
+                continue
+            if prop in (json.load(open(mp)).get("alarms") or {}):
+                continue
+            out.append({"id": "benign:" + d, "kind": "benign", "edits": {"patch": pp}})
+    return out
+
+
+def mutants_for(prop, with_seeded=False, with_benign=False):
     mod = importlib.import_module("selfcheck." + prop.lower())
-    return list(mod.MUTANTS) + (seeded_for(prop) if with_seeded else [])
+    return list(mod.MUTANTS) + (seeded_for(prop) if with_seeded else []) + (benign_for(prop) if with_benign else [])
 
 
 def main():
